@@ -29,6 +29,7 @@ static std::string rank_dump(ParCSRMatrix* C) {
     o << "G " << C->global_num_rows << " " << C->global_num_cols << " L " << C->local_num_rows
       << " NNZ " << C->local_nnz << " " << C->on_proc->nnz << " " << C->off_proc->nnz
       << " NC " << C->on_proc_num_cols << " " << C->off_proc_num_cols << " " << C->on_proc->n_cols << " " << C->off_proc->n_cols
+      << " I1 " << C->on_proc->idx1.size() << " " << C->off_proc->idx1.size()
       << " PART " << C->partition->global_num_rows << " " << C->partition->global_num_cols << " "
       << C->partition->first_local_row << " " << C->partition->local_num_rows << " "
       << C->partition->first_local_col << " " << C->partition->local_num_cols;
@@ -50,6 +51,18 @@ static std::string rank_dump(ParCSRMatrix* C) {
     }
     o << " END";
     return o.str();
+}
+
+// ParLit::csr() goes through COOMatrix::add_value, which discards zeros; explicit zeros (part of the property's
+// quantifier) are therefore entered as a sentinel and set to 0 in the finished blocks (positions are distinct).
+static const double ZERO_SENTINEL = 1234567.890625;
+static ParCSRMatrix* build_csr(const ParLit& l) {
+    ParLit m = l;
+    for (size_t k = 0; k < m.tv.size(); k++) if (m.tv[k] == 0.0) m.tv[k] = ZERO_SENTINEL;
+    ParCSRMatrix* A = m.csr();
+    for (size_t k = 0; k < A->on_proc->vals.size(); k++) if (A->on_proc->vals[k] == ZERO_SENTINEL) A->on_proc->vals[k] = 0.0;
+    for (size_t k = 0; k < A->off_proc->vals.size(); k++) if (A->off_proc->vals[k] == ZERO_SENTINEL) A->off_proc->vals[k] = 0.0;
+    return A;
 }
 
 static ParCSRMatrix* par_mult_T(ParCSRMatrix* B, ParCSRMatrix* A, const std::string& form, int tap) {   // A^T * B
@@ -74,7 +87,7 @@ static void run_case(const std::string& cid, Toks& t) {
         ParLit la, lb; la.parse(t); lb.parse(t);
         if (!la.usable() || !lb.usable()) { emit0(cid, "SKIP", "partition for another process count"); return; }
         set_ppn(tap);
-        ParCSRMatrix* A = la.csr(); ParCSRMatrix* B = lb.csr();
+        ParCSRMatrix* A = build_csr(la); ParCSRMatrix* B = build_csr(lb);
         if (op == "pmult") {
             ParCSRMatrix* C = A->mult(B, tap > 0);
             emit_all(cid, "C", rank_dump(C)); delete C;
